@@ -404,6 +404,7 @@ where
 // ------------------------------------------------------------------------------------------------
 // builders
 
+#[allow(dead_code)]
 struct Field { name: &'static str, cands: Vec<PV>, bad: Vec<PV> }
 
 struct Builder {
@@ -1081,7 +1082,7 @@ fn builders(thorough: bool) -> Vec<Builder> {
 // combinations
 
 /// full product when small, otherwise every pair of values of every two fields (others random) plus random rows
-fn combos(fields: &[Field], limit: usize, extra_random: usize, rng: &mut Sm64) -> Vec<Vec<usize>> {
+fn combos(fields: &[Field], base: &[usize], limit: usize, extra_random: usize, rng: &mut Sm64) -> Vec<Vec<usize>> {
     let sizes: Vec<usize> = fields.iter().map(|f| f.cands.len()).collect();
     let total: usize = sizes.iter().product();
     let mut out: Vec<Vec<usize>> = vec![];
@@ -1103,7 +1104,12 @@ fn combos(fields: &[Field], limit: usize, extra_random: usize, rng: &mut Sm64) -
         for j in i + 1..sizes.len() {
             for a in 0..sizes[i] {
                 for b in 0..sizes[j] {
+                    // every pair of values once with the other parameters random, once with them at their defaults
                     let mut row: Vec<usize> = sizes.iter().map(|s| rng.below(*s as u64) as usize).collect();
+                    row[i] = a;
+                    row[j] = b;
+                    out.push(row);
+                    let mut row = base.to_vec();
                     row[i] = a;
                     row[j] = b;
                     out.push(row);
@@ -1125,16 +1131,37 @@ fn main() {
     let thorough = args.tier == "thorough";
     let mut out = Out::new(&args.out, args.shards, "C04.Corr", "case", args.only);
     let bs = builders(thorough);
-    let limit = if thorough { 4000 } else { 420 };
+    let limit = if thorough { 6000 } else { 420 };
     let mut id: u64 = 0;
     for b in &bs {
         // rows: the default builder, the boundary grid, the malformed stream
         let mut rows: Vec<(Vec<PV>, &'static str)> = vec![];
         let base: Vec<PV> = b.fields.iter().zip(&b.defaults).map(|(f, dv)| dv.clone().unwrap_or_else(|| f.cands[f.cands.len() - 1].clone())).collect();
         rows.push((base.clone(), "default"));
+        // (OPTICS' default tolerance is +inf: the one-at-a-time and malformed rows start from a finite set)
+        let base: Vec<PV> = base.iter().zip(&b.fields).map(|(v, f)| if v.all_finite() { v.clone() } else { f.cands.iter().find(|c| matches!(c, PV::F(x) if *x == 1.0)).cloned().unwrap_or_else(|| v.clone()) }).collect();
         let mut r = rng.fork();
-        for ix in combos(&b.fields, limit, if thorough { 400 } else { 60 }, &mut r) {
-            rows.push((ix.iter().zip(&b.fields).map(|(i, f)| f.cands[*i].clone()).collect(), "grid"));
+        // index of the (finite) default of each field in its candidate list (appended when absent)
+        let mut fields_ix: Vec<usize> = vec![];
+        let mut cand_lists: Vec<Vec<PV>> = b.fields.iter().map(|f| f.cands.clone()).collect();
+        for (k, v) in base.iter().enumerate() {
+            match cand_lists[k].iter().position(|c| c.same(v)) {
+                Some(i) => fields_ix.push(i),
+                None => { cand_lists[k].push(v.clone()); fields_ix.push(cand_lists[k].len() - 1); }
+            }
+        }
+        let grid_fields: Vec<Field> = b.fields.iter().zip(&cand_lists).map(|(f, c)| Field { name: f.name, cands: c.clone(), bad: vec![] }).collect();
+        for ix in combos(&grid_fields, &fields_ix, limit, if thorough { 400 } else { 60 }, &mut r) {
+            rows.push((ix.iter().zip(&grid_fields).map(|(i, f)| f.cands[*i].clone()).collect(), "grid"));
+        }
+        // one parameter at a time over its whole candidate list, the others at their (valid) defaults:
+        // a single wrong bound is then exposed whatever the combination sampling does
+        for (k, f) in b.fields.iter().enumerate() {
+            for c in &f.cands {
+                let mut v = base.clone();
+                v[k] = c.clone();
+                rows.push((v, "single"));
+            }
         }
         for (k, f) in b.fields.iter().enumerate() {
             for bad in &f.bad {
@@ -1148,7 +1175,9 @@ fn main() {
                 }
             }
         }
-        let mut trained = 0usize;
+        // valid builders are trained (unchecked against checked form) on about `budget` rows per builder
+        let budget = if thorough { 400 } else { 60 };
+        let stride = std::cmp::max(1, rows.len() / (5 * budget)) as u64;   // roughly one row in five is valid
         for (vals, stream) in rows {
             let my = id;
             id += 1;
@@ -1162,7 +1191,8 @@ fn main() {
             let valid = probe.vref.ok;
             let finite = envv.all_finite();
             // non-finite values that the guard lets through are outside the property: never train on them
-            let train = !valid || (finite && (b.safe)(&vals) && (dflt || trained < (if thorough { 400 } else { 40 }) || r.chance(0.1)));
+            // (the choice depends on the case alone, so that `--only <id>` replays exactly the same observation)
+            let train = !valid || (finite && (b.safe)(&vals) && (dflt || my % stride == 0));
             let obs = if train {
                 // a call that does not come back (an invalid builder that trains for ever) must not stall the run
                 let (tx, rx) = std::sync::mpsc::channel();
@@ -1179,7 +1209,7 @@ fn main() {
                 }
             } else { probe };
             if train && valid {
-                trained += 1;
+                out.bump("valid_builders_trained_both_ways");
             }
             let norm_ok = if envv.has_negzero() && !dflt {
                 let nv: Vec<PV> = vals.iter().map(|v| v.norm()).collect();
